@@ -192,10 +192,10 @@ def _is_position_index(sl: ast.AST) -> bool:
 def check_function(index: RepoIndex, rep, rule: str, f: Func, ev: Evaluator,
                    qual: Optional[str] = None) -> int:
     """returns the number of sinks analysed in f"""
-    from .inline import inlined_function
+    from .view import component_node
     node = f.node
     if qual is None and f.cls is None:
-        node, _ = inlined_function(index, f)
+        node, _ = component_node(index, f)
     w = walk_function(node)
     gn = grid_names_of(node, w)
     pc = PosClassifier(f, w, gn)
@@ -266,14 +266,10 @@ def check_function(index: RepoIndex, rep, rule: str, f: Func, ev: Evaluator,
 class _PlainModel(FnModel):
     """FnModel without helper inlining (nested functions, methods)"""
 
+    INLINE = False
+
     def __init__(self, index, func, ev):
-        import gvstatic.inline as il
-        saved = il.inlined_function
-        il.inlined_function = lambda index, func, exclude=None: (func.node, [])
-        try:
-            super().__init__(index, func, [], ev)
-        finally:
-            il.inlined_function = saved
+        super().__init__(index, func, [], ev)
 
 
 def dominated(ev: Evaluator, guard, pkey: str) -> Tuple[bool, str]:
